@@ -12,7 +12,7 @@ import (
 
 var OptMergePrec = OptSet{Name: "MERGE+Precision(0.1)", Opts: func() []jd.Option { return []jd.Option{jd.MERGE, jd.Precision(0.1)} }, Reading: ref.List, Merge: true, Eps: 0.1, HasEps: true}
 
-var c05Opts = []OptSet{OptNone, OptSetO, OptMset, OptKeys1, OptMerge, OptSetMerge, OptMsMerge, OptPrecision(0.1), OptPrecision(1.5), OptPrecision(1e-9), OptMergePrec}
+var c05Opts = []OptSet{OptNone, OptSetO, OptMset, OptKeys1, OptMerge, OptSetMerge, OptMsMerge, OptKeysMerge, OptPrecision(0.1), OptPrecision(1.5), OptPrecision(1e-9), OptMergePrec}
 
 // withinEpsInArray is the classifier of F9 (array part): at some pair of
 // arrays met while walking a and b in parallel, two numbers differ but are
@@ -60,6 +60,10 @@ func c05Judge(c *mon.Ctx, aText, bText string, o OptSet, class string) {
 	eq := mkA().Equals(mkB(), o.O()...)
 	d := mkA().Diff(mkB(), o.O()...)
 	empty := len(d) == 0
+	if same := mkA(); len(same.Diff(same, o.O()...)) != 0 || !same.Equals(same, o.O()...) {
+		c.Violation("a document diffed against itself (the very same node as both operands) is not equal / has a non-empty diff", map[string]any{"diff": ref.HunksString(Hunks(same.Diff(same, o.O()...)))})
+		return
+	}
 	if aText != bText {
 		c.Nontrivial(joinKey(aText, bText, o.Name))
 	}
